@@ -7,6 +7,7 @@ import (
 	"math/rand"
 	"net/http"
 	"net/url"
+	"runtime"
 	"runtime/debug"
 	"sort"
 	"strconv"
@@ -76,6 +77,8 @@ type MuxScenario struct {
 	Knobs    Knobs          `json:"knobs"`
 	Reqs     []ReqSpec      `json:"reqs"`
 	Backends []BackendSpec  `json:"backends,omitempty"`
+	Local    []string       `json:"local,omitempty"`         // local services (nil: all of localServices; ["-"]: none)
+	SkipRegister bool       `json:"skip_register,omitempty"` // backends are started but not registered (registrysim does it itself)
 	Clock    []int64        `json:"clock_ns,omitempty"` // planned clock jumps (C15)
 	Note     string         `json:"note,omitempty"`
 }
@@ -87,6 +90,7 @@ type reqState struct {
 	method *methodInfo
 	q      *ReqIO
 	sim    *core.Sim
+	mr     *muxRun
 
 	cSlot, hSlot, sSlot, fSlot, kSlot, bSlot *core.Slot
 
@@ -142,6 +146,15 @@ func (r *reqState) handlerSlot(tag string) *core.Slot {
 	return r.bSlot
 }
 func (r *reqState) handlerSpec(tag string) *HandlerSpec { return &r.spec.Handler }
+
+// log is the log of the handler that runs this request's script: the local
+// one, or the backend's when the method is proxied.
+func (r *reqState) log() *HLog {
+	if r.spec.Backend != "" {
+		return &r.blog
+	}
+	return &r.hlog
+}
 
 // client send gating (ping-pong): message k may be sent once the handler has
 // sent k responses.
@@ -471,6 +484,11 @@ func (r *reqState) faultTask(armStep int) {
 		r.q.clientAbort()
 	case "wbreak":
 		r.q.clientBreakWrites()
+	case "bkill":
+		r.sim.Count(cBackendKill)
+		if b := r.mr.backendByTag(r.spec.Backend); b != nil {
+			b.kill()
+		}
 	}
 	r.sim.Note(r.spec.Fault.Kind + " " + info)
 }
@@ -555,6 +573,8 @@ type muxRun struct {
 	stop   core.StopReason
 	mux    *larking.Mux
 	parked []string
+	stuck  []*reqState // requests that had not returned when the driver stopped
+	blocked []string   // where goroutines with larking frames were blocked at that moment
 	setupErr error
 	world  *World
 	backends []*backend
@@ -601,7 +621,16 @@ func runMuxScenario(t *testing.T, sc *MuxScenario, tape *core.Tape) *muxRun {
 		mr.mux = mux
 		world := &World{sim: sim, reqs: map[int]*reqState{}, tag: "local"}
 		mr.world = world
-		for _, svc := range localServices {
+		local := localServices
+		if sc.Local != nil {
+			local = nil
+			for _, s := range sc.Local {
+				if s != "-" {
+					local = append(local, s)
+				}
+			}
+		}
+		for _, svc := range local {
 			if err := larking.VerifRegisterService(mux, world.serviceDesc(svc), world); err != nil {
 				mr.setupErr = err
 				return
@@ -621,7 +650,7 @@ func runMuxScenario(t *testing.T, sc *MuxScenario, tape *core.Tape) *muxRun {
 				w = 2
 			}
 			name := "r" + strconv.Itoa(sp.ID)
-			rs := &reqState{spec: sp, method: methods[sp.Method], sim: sim, abortedAt: -1}
+			rs := &reqState{spec: sp, method: methods[sp.Method], sim: sim, mr: mr, abortedAt: -1}
 			rs.q = newReqIO(sim, sp.ID, name, w)
 			rs.q.zeroReads, rs.q.eofData, rs.q.window = sp.ZeroReads, sp.EOFData, sp.Window
 			rs.q.sync()
@@ -675,7 +704,7 @@ func runMuxScenario(t *testing.T, sc *MuxScenario, tape *core.Tape) *muxRun {
 			rs := rs
 			go rs.clientTask()
 			go rs.serverTask(mux)
-			if k := rs.spec.Fault.Kind; k == "abort" || k == "wbreak" {
+			if k := rs.spec.Fault.Kind; k == "abort" || k == "wbreak" || k == "bkill" {
 				rs.fSlot = sim.NewSlot("r"+strconv.Itoa(rs.spec.ID)+".fault", 1)
 				arm := tape.Draw(len(rs.spec.Msgs)*8 + len(rs.wire)/8 + 12)
 				go rs.faultTask(arm)
@@ -700,6 +729,12 @@ func runMuxScenario(t *testing.T, sc *MuxScenario, tape *core.Tape) *muxRun {
 		mr.stop = sim.Run(allDone{mr.reqs})
 		if mr.stop != core.StopDone {
 			mr.parked = sim.ParkedLabels()
+			for _, rs := range mr.reqs {
+				if !rs.q.hasReturned() {
+					mr.stuck = append(mr.stuck, rs)
+				}
+			}
+			mr.blocked = blockedLarkingFrames()
 		}
 		// Teardown: release leftover parked tasks (unfired fault tasks,
 		// consumers; everything if the run wedged), then stop the backends.
@@ -758,12 +793,10 @@ func (mr *muxRun) globalInvariants(prop string) *Violation {
 	if mr.stop != core.StopDone {
 		var stuck []string
 		var ctx string
-		for _, rs := range mr.reqs {
-			if !rs.q.hasReturned() {
-				stuck = append(stuck, "r"+strconv.Itoa(rs.spec.ID))
-				if ctx == "" {
-					ctx = mr.contextKey(rs)
-				}
+		for _, rs := range mr.stuck {
+			stuck = append(stuck, "r"+strconv.Itoa(rs.spec.ID))
+			if ctx == "" {
+				ctx = mr.contextKey(rs)
 			}
 		}
 		rule := "wedge"
@@ -775,7 +808,7 @@ func (mr *muxRun) globalInvariants(prop string) *Violation {
 			return violationf(prop, "harness-client-stuck", "harness", "clients did not finish; parked: %v", mr.parked)
 		}
 		sort.Strings(mr.parked)
-		return violationf(prop, rule, ctx, "requests %v never returned (stop=%s after %d steps, fake clock pushed %v); parked operations: %v", stuck, mr.stop, mr.sim.StepNo(), mr.sim.Horizon, mr.parked)
+		return violationf(prop, rule, ctx, "requests %v never returned (stop=%s after %d steps, fake clock pushed %v); parked operations: %v; goroutines blocked inside larking: %v", stuck, mr.stop, mr.sim.StepNo(), mr.sim.Horizon, mr.parked, mr.blocked)
 	}
 	return nil
 }
@@ -802,4 +835,29 @@ func (mr *muxRun) fill(res *RunResult, tape *core.Tape) {
 		res.Digest = mr.sim.TraceDigest()
 		res.Trace = mr.sim.RenderTrace(400)
 	}
+}
+
+// blockedLarkingFrames lists, for every goroutine with a larking frame on its
+// stack, the innermost larking frame (used in wedge reports).
+func blockedLarkingFrames() []string {
+	buf := make([]byte, 1<<20)
+	buf = buf[:runtime.Stack(buf, true)]
+	seen := map[string]int{}
+	for _, g := range strings.Split(string(buf), "\n\n") {
+		for _, ln := range strings.Split(g, "\n") {
+			if strings.HasPrefix(ln, "larking.io/larking.") {
+				if i := strings.LastIndex(ln, "("); i > 0 {
+					ln = ln[:i]
+				}
+				seen[strings.TrimPrefix(ln, "larking.io/larking.")]++
+				break
+			}
+		}
+	}
+	var out []string
+	for k, n := range seen {
+		out = append(out, k+"x"+strconv.Itoa(n))
+	}
+	sort.Strings(out)
+	return out
 }
